@@ -6,7 +6,7 @@ CONSTANTS
  Fixed = TRUE
  Emit = FALSE
  RespKinds = {"action","noaction","error","expired","omit","twice","unknown"}
- AdKinds = {"ok","retriable","later","fatal"}
+ AdKinds = {"ok","retriable","later","fatal","unproc"}
  BatchKinds = {"ok","retriable","later","hard"}
 SPECIFICATION StepSpec
 INVARIANT NoPanic
